@@ -103,10 +103,26 @@ def gen_constants():
     return rc == 0, out.strip()
 
 
+# translators of the translator route, run in this order on every check; each regenerates its
+# own Model/Gen*.lean from the Rust text and reports one status line per function
+TRANSLATORS = ["gen_source_model.py", "gen_bddcore.py", "gen_tables.py", "gen_dnnf.py", "gen_sddcore.py",
+               "gen_cnfup.py", "gen_orders.py", "gen_optim.py", "gen_compile.py"]
+
+
 def gen_source_model():
-    """translator route: regenerate Model/GenIte.lean and Model/GenFF.lean from the source text"""
-    rc, out = sh([sys.executable, os.path.join(ROOT, "tools", "gen_source_model.py")])
-    return rc == 0, [l for l in out.strip().split("\n") if "->" in l]
+    """translator route: regenerate Model/Gen*.lean from the source text (every translator that exists)"""
+    ok_all, lines = True, []
+    for t in TRANSLATORS:
+        path = os.path.join(ROOT, "tools", t)
+        if not os.path.exists(path):
+            continue
+        with Lock("gen"):
+            rc, out = sh([sys.executable, path], timeout=600)
+        ok_all = ok_all and rc == 0
+        if rc != 0:
+            lines.append("%s -> CRASHED: %s" % (t, out.strip()[-200:].replace("\n", " ")))
+        lines += [l for l in out.strip().split("\n") if "->" in l]
+    return ok_all, lines
 
 
 def lake_build(targets):
